@@ -213,6 +213,12 @@ func (fr *Frame) applyContract(ins ssa.Instruction, c *Contract, key string, cal
 	for _, en := range c.Ensures {
 		vc.assume(imp(fr.curReach, ex.trBool(en.Expr, env2)))
 	}
+	// call-event ghosts: history of calls made, maintained at call sites only
+	for _, evn := range c.Events {
+		g := fr.ghost(evn.Label)
+		v := ex.tr(evn.Expr, env)
+		ex.set(fr.cur, g, "(seq.++ "+ex.get(fr.cur, g)+" (seq.unit "+v.T+"))")
+	}
 	// reference results are allocated
 	fr.assumeResultsAllocated(res)
 	return res
